@@ -348,6 +348,11 @@ def _strip_into_iter(it):
     return it
 
 
+def is_next(x):
+    """tree node = a call of some Iterator::next implementation (resolved names look like std::iter::range::next or <T as Iterator>::next)"""
+    return x[0] == 'call' and x[1].endswith('::next')
+
+
 class ItemCall:
     """one call made per element of an iteration (see per_item_calls)"""
     def __init__(self, fn, site, it, trees, anchor, form, exhaustive):
@@ -375,7 +380,7 @@ def loop_exits_only_on_exhaustion(f, h):
             if t['k'] != 'switch':
                 return False
             cond = f.expr_operand(t['d'], u, 'T')
-            if not any(x[0] == 'call' and x[1].endswith('::next') and 'Iterator' in x[1] for x in walk(cond)):
+            if not any(is_next(x) for x in walk(cond)):
                 return False
             n += 1
     return n >= 1
@@ -394,7 +399,7 @@ def per_item_calls(P, f, callee_name):
         it = None
         for t in trees:
             for x in walk(t):
-                if x[0] == 'call' and x[1].endswith('::next') and 'Iterator' in x[1] and x[2]:
+                if is_next(x) and x[2]:
                     it = _strip_into_iter(x[2][0])
                     break
             if it is not None:
@@ -423,7 +428,7 @@ def per_item_calls(P, f, callee_name):
 def from_item(fn, tree):
     """does the operand tree derive from the iteration item (Iterator::next result, or the closure's item parameter)?"""
     for x in walk(tree):
-        if x[0] == 'call' and x[1].endswith('::next') and 'Iterator' in x[1]:
+        if is_next(x):
             return True
         if fn.kind == 'closure' and x[0] == 'arg' and x[1] >= 2:
             return True
